@@ -246,10 +246,9 @@ impl From<&str> for Val {
             }
             _ => {}
         };
-        if let Ok(num) = s.parse::<f64>() {
-            Val::Double(num)
-        } else {
-            Val::String(string.into())
+        match s.parse::<f64>() {
+            Ok(num) if num.is_finite() => Val::Double(num),
+            _ => Val::String(string.into()),
         }
     }
 }
